@@ -95,6 +95,25 @@ def programs(rng, tier):
         assert len(b) > (1000 if nv < 17 else 10000)
         pair(b, [b"x_%d" % i for i in range(nv)], op="vs_dot")
         pair(b, [b"v%d" % i for i in range(nv)])
+    # relabelling storms: ONE diagram exported several times in a row inside one program (one worker thread of the harness) under
+    # DIFFERENT name lists of the same length and repeating pruning flags, through every entry point: an export that remembers
+    # an earlier rendering keyed by the diagram (or by less than all of its arguments) answers with the earlier labels
+    for _ in range(120 if tier == "quick" else 3000):
+        nv = rng.choice([1, 2, 3, 4, 5, 6])
+        b = rand_operand(rng, nv, noncanon=0.2)
+        prog = []
+        for k in range(rng.choice([3, 4, 5, 6])):
+            kind = rng.choice(["plain", "punct", "punct", "anon", "shuffled"])
+            pr = rng.choice("TF") if k != 1 else prog[0][4]
+            if kind == "anon":
+                prog.append(["s%d" % k, "vs_dot", bdd_sx(b), ["anon", str(nv)], pr])
+                continue
+            names = pick_names(rng, nv, "punct" if kind == "shuffled" else kind)
+            if kind == "shuffled":
+                names = [b"x_%d" % i for i in range(nv)]
+                rng.shuffle(names)
+            prog.append(["s%d" % k, rng.choice(["dot", "dot", "dot_write"]), bdd_sx(b), names_sx(names), pr])
+        progs.append(prog)
     # outside the quantifier (recorded only): wrong number of names, invalid name sets, malformed arrays
     b3 = all_functions(3)[100]
     pair(b3, PLAIN[:2])
